@@ -1,4 +1,5 @@
 """C20 - id/position bridges are faithful."""
+import functools
 import itertools
 import math
 
@@ -68,6 +69,21 @@ def default_callable(v):
     return v.bounds.upper * 7 + 1
 
 
+class _CallableObject:
+    def __call__(self, v):
+        return default_callable(v)
+
+    def method(self, v):
+        return default_callable(v)
+
+
+def _with_extra(extra, v):
+    return default_callable(v)
+
+
+CALLABLES = [default_callable, lambda v: default_callable(v), functools.partial(_with_extra, None), _CallableObject(), _CallableObject().method]
+
+
 def check_construct(k, tier, acc, only=None):
     ids, bds = vl(tier)[k]
     variables = [puan.variable(i, b) for i, b in zip(ids, bds)]
@@ -106,7 +122,10 @@ def check_construct(k, tier, acc, only=None):
                         acc.n("transitions")
                         try:
                             dd = dict(d)
-                            got = h.construct(dd, default_value=dflt, dtype=dt) if dflt is not None or dt is not np.int64 else h.construct(dd)
+                            # the kind of callable is not part of the contract: plain function, lambda, functools.partial, an object
+                            # with __call__, a bound method - in rotation, all computing default_callable(variable)
+                            dfl = None if dflt is None else CALLABLES[ci % len(CALLABLES)]
+                            got = h.construct(dd, default_value=dfl, dtype=dt) if dflt is not None or dt is not np.int64 else h.construct(dd)
                             if dd != d or list(dd) != list(d):
                                 acc.violation(None, case, {"what": "construct() changed the caller's dictionary", "before": repr(d), "after": repr(dd)})
                                 continue
